@@ -471,6 +471,8 @@ void h(void) {
     groups.append(Group("dsqr.apply_QtY", base + h_q + byname["apply_PXv"] + byname["apply_QtY"] + h_q2, "h", enforce=None, loop_contracts=True, solver="cadical",
                         defines=["SCALAR_FLOAT"], timeout=600, functions=dsf(["apply_QtY", "apply_PX(Scalar*)"]), expect_classes=["loop_invariant_step", "dsqr.apply_QtY"],
                         note="UNBOUNDED in n (loop contract on the y_ptr walk); every x[0..nr) access of the vector apply_PX is inside y given the record property proved by dsqr.compute (forall-instantiation at the index read)"))
+    from props import kernels2
+    groups += kernels2.dsqr_unbounded(report)
     sc_text = base + byname["stable_norm3"] + byname["stable_scaling"] + byname["compute_reflector3"] + h_s
     for k, nm in ((1, "stable_norm3"), (2, "compute_reflector.nr")):
         groups.append(Group("dsqr.scalar.%s" % nm, sc_text, "h", loop_contracts=False, solver="kissat", defines=["SCALAR_FLOAT", "CLAUSE=%d" % k], timeout=900,
